@@ -53,13 +53,37 @@ def check_block(ctx, P):
     if len(sig) != 1 or len(mult) != 1 or len(mult[0].loops) != 1:
         raise AnalysisBroken("CheckBlock: expected one bad-blk-sigops exit and one bad-cb-multiple exit inside one loop")
     i = for_shape(mult[0].loops[0], subst)[0]
+    # the legacy sigop sum: either accumulated in CheckBlock itself, or in a repository helper whose result initialises the tested value
+    holder, hsubst, barg = f, subst, "block"
     adds = sites(f, lambda e: e[0] == "b" and e[1] in ASSIGN_OPS and is_expr(e[2]) and e[2][0] == "local" and contains(["call", "GetLegacySigOpCount"], e[3]), P)
-    if len(adds) != 1:
+    sigterm = None
+    if len(adds) == 1:
+        nsig = adds[0].expr[2][1]
+        sigterm = re.escape(nsig)
+    elif not adds:
+        # follow `x = Helper(block)` / a direct `Helper(block)` operand of the rung into the helper's body
+        cands = []
+        for a_ in F.atoms(sig[0].own_formula(None)):
+            m = re.fullmatch(r"4 \* ((?:\w|::)+)\((\w+)\) < \d+", a_)
+            if m and len(P.fns(m.group(1))) == 1 and P.fns(m.group(1))[0].body is not None:
+                cands.append((P.fns(m.group(1))[0], m.group(2), "%s(%s)" % (m.group(1), m.group(2))))
+        if len(cands) != 1 or cands[0][1] != "block" or len(cands[0][0].params) != 1:
+            raise AnalysisBroken("CheckBlock: the legacy sigop sum was found neither in CheckBlock nor in a single-argument helper applied to the block")
+        holder = ctx.used(cands[0][0])
+        hsubst = naming(holder, P)
+        barg = holder.params[0]["n"]
+        hx = exits(holder, P, hsubst)
+        accs = {show(e.value) for e in hx if is_expr(e.value) and e.value[0] == "local"}
+        if len(accs) != 1 or len(hx) != 1:
+            raise AnalysisBroken("%s: expected a single exit returning the accumulator" % holder.q)
+        nsig = accs.pop()
+        sigterm = re.escape(cands[0][2])
+        ctx.note("CheckBlock: legacy sigop sum is computed by helper %s (followed)" % holder.q)
+    else:
         raise AnalysisBroken("CheckBlock: expected exactly one statement accumulating GetLegacySigOpCount")
-    nsig = adds[0].expr[2][1]
     atoms = {"FCHECKED": "block.fChecked", "EMPTY": "block.vtx.empty()", "COUNT": ("4 * block.vtx.size() < 4000001", False),
              "SIZE": ("4 * GetSerializeSize(TX_NO_WITNESS(block)) < 4000001", False), "CB0": "block.vtx[0].IsCoinBase()",
-             "CBI": "block.vtx[%s].IsCoinBase()" % i, "INRANGE": "%s < block.vtx.size()" % i, "SIGOPS": ("4 * %s < 80001" % nsig, False)}
+             "CBI": "block.vtx[%s].IsCoinBase()" % i, "INRANGE": "%s < block.vtx.size()" % i, "SIGOPS": (re.compile(r"4 \* " + sigterm + r" < 80001"), False)}
     scalar = [("bad-blk-length", "EMPTY || COUNT || SIZE", "an empty block, more than 1,000,000 transactions or a stripped size above 1,000,000 bytes (x4 > 4,000,000)"),
               ("bad-cb-missing", "EMPTY || !CB0", "a block whose first transaction is not a coinbase"),
               ("bad-blk-sigops", "SIGOPS", "a block whose legacy sigop count x4 exceeds 80,000")]
@@ -85,10 +109,15 @@ def check_block(ctx, P):
                None if ok else {"unbound_code_atoms": un})
     check_results(ctx, f, P, {"bad-blk-length": BC, "bad-cb-missing": BC, "bad-cb-multiple": BC, "bad-blk-sigops": BC}, closed=False, ex=ex)
     # the legacy sigop sum
-    check_accumulator(ctx, f, P, nsig, r"0", [(r"GetLegacySigOpCount\(\*?each\(block\.vtx\)\)", "true", {}, r"each\(block\.vtx\)", "GetLegacySigOpCount(tx) for every transaction of the block")],
-                      oid="CheckBlock/sigops", subst=subst, own=True)
-    ws = sites(f, lambda e: e[0] == "b" and e[1] == "+=" and match(["local", nsig], e[2]), P)
-    okb = len(ws) == 1 and F.implies(sig[0].formula, F.atom("done(loop@%s)" % ws[0].loops[-1].get("l"))) if ws and ws[0].loops else False
+    vtx_each = r"each\(" + re.escape(barg) + r"\.vtx\)"
+    check_accumulator(ctx, holder, P, nsig, r"0", [(r"GetLegacySigOpCount\(\*?" + vtx_each + r"\)", "true", {}, vtx_each, "GetLegacySigOpCount(tx) for every transaction of the block")],
+                      oid="CheckBlock/sigops", subst=hsubst, own=True)
+    ws = sites(holder, lambda e: e[0] == "b" and e[1] == "+=" and match(["local", nsig], e[2]), P)
+    if holder is f:
+        okb = len(ws) == 1 and F.implies(sig[0].formula, F.atom("done(loop@%s)" % ws[0].loops[-1].get("l"))) if ws and ws[0].loops else False
+    else:
+        hx = exits(holder, P, hsubst)
+        okb = len(ws) == 1 and bool(ws[0].loops) and all(F.implies(e.formula, F.atom("done(loop@%s)" % ws[0].loops[-1].get("l"))) for e in hx)
     ctx.ob("CheckBlock/sigops-before-rung", "ORDER", "the sigop rung is evaluated after the complete summation loop", bool(okb), "%s:%s" % (f.file, sig[0].line))
     # memo flag only behind all rungs
     check_guard(ctx, f, P, lambda e: match(["b", "=", [".", ANY, "CBlock::fChecked"], ["bool", True]], e), "!EMPTY && !COUNT && !SIZE && CB0 && !SIGOPS", atoms,
@@ -137,29 +166,28 @@ def connect_block(ctx, P):
     c = calls[0]
     txloop = c.loops[0]
     subst = loop_subst(f, P, txloop)
-    iv, st, cond, inc = for_shape(txloop, subst)
-    okl = st == "0" and cond == "%s < block.vtx.size()" % iv and inc in ("%s++" % iv, "++%s" % iv) and not [w for w in writes_to_local(f, iv) if w[1] not in ("post++", "++")]
-    ctx.ob("ConnectBlock/tx-loop", "SUM", "the transaction loop of ConnectBlock runs i = 0 .. vtx.size()-1 (coinbase included)", okl, "%s:%s" % (f.file, txloop.get("l")),
-           {"loop": [iv, st, cond, inc]})
+    txinfo = loop_info(f, txloop, subst)
+    TX = r"\(?\*?\(?" + elem_rx(txinfo) + r"\)?\)?"
+    okl = txinfo["start"] == "0" and "block.vtx" in txinfo["ranges"] and txinfo["counted"]
+    ctx.ob("ConnectBlock/tx-loop", "SUM", "the transaction loop of ConnectBlock visits block.vtx from the first element, one by one (coinbase included)", okl,
+           "%s:%s" % (f.file, txloop.get("l")), {"kind": txinfo["kind"], "range": txinfo["ranges"], "start": txinfo["start"]})
     a = call_args(c.expr)
     ak = [F.key(F.expand(x, subst)) for x in a]
     fl = a[2][1] if len(a) == 3 and a[2][0] == "local" else None
     d = decl_of(f, fl) if fl else None
-    okargs = (len(a) == 3 and ak[0] in ("*block.vtx[%s]" % iv, "block.vtx[%s]" % iv) and ak[1] == "view" and d is not None and is_expr(d.get("i"))
+    okargs = (len(a) == 3 and re.fullmatch(TX, ak[0]) is not None and ak[1] == "view" and d is not None and is_expr(d.get("i"))
               and any(is_call_to("GetBlockScriptFlags", x) and [F.key(y) for y in call_args(x)] == ["*pindex", "m_chainman"] for x in subexprs(d["i"]))
               and not writes_to_local(f, fl))
-    ctx.ob("ConnectBlock/sigop-args", "PROVENANCE", "the cost of each transaction is GetTransactionSigOpCost(block.vtx[i], view, GetBlockScriptFlags(*pindex, m_chainman))", okargs, c.where,
+    ctx.ob("ConnectBlock/sigop-args", "PROVENANCE", "the cost of each transaction is GetTransactionSigOpCost(<current transaction>, view, GetBlockScriptFlags(*pindex, m_chainman))", okargs, c.where,
            {"args": ak, "flags_init": show(d.get("i")) if d else None})
     ws = sites(f, lambda e: e[0] == "b" and e[1] in ASSIGN_OPS and is_expr(e[2]) and e[2][0] == "local" and any(x is c.expr for x in subexprs(e[3])), P)
     if len(ws) != 1:
         raise AnalysisBroken("ConnectBlock: GetTransactionSigOpCost is not assigned/accumulated into a local")
     acc = ws[0].expr[2][1]
-    tx = r"\(?\*?\(?block\.vtx\[%s\]\)?\)?" % iv
-    atoms = {"INRANGE": "%s < block.vtx.size()" % iv, "VALID": "state.IsValid()", "COINBASE": re.compile(tx + r"\.IsCoinBase\(\)"),
-             "CTI": re.compile(r"Consensus::CheckTxInputs\(.*\)"), "FEESOK": re.compile(r"MoneyRange\(\w+\)"),
-             "HEIGHTSDONE": (re.compile(r"\w+ < .*vin\.size\(\)"), False), "SEQLOCKS": re.compile(r"SequenceLocks\(.*\)"),
+    atoms = {"VALID": "state.IsValid()", "COINBASE": re.compile(TX + r"\.IsCoinBase\(\)"),
+             "CTI": re.compile(r"Consensus::CheckTxInputs\(.*\)"), "FEESOK": re.compile(r"MoneyRange\(\w+\)"), "SEQLOCKS": re.compile(r"SequenceLocks\(.*\)"),
              "OVER": ("%s < 80001" % acc, False)}
-    reach = "INRANGE && VALID && (COINBASE || (CTI && FEESOK && HEIGHTSDONE && SEQLOCKS))"
+    reach = "VALID && (COINBASE || (CTI && FEESOK && SEQLOCKS))"
     check_accumulator(ctx, f, P, acc, r"0", [(r"GetTransactionSigOpCost\(.*\)", reach, atoms, None, "GetTransactionSigOpCost(tx) for the coinbase and for every transaction that passed the input checks")],
                       oid="ConnectBlock/sigops", subst=subst, scope=txloop)
     check_deferred_rung(ctx, f, P, "bad-blk-sigops", BC, reach + " && OVER", atoms, subst)
@@ -171,36 +199,64 @@ def connect_block(ctx, P):
 
 
 # ---------------------------------------------------------------------------------------------- sigop cost twins
+def sum_exits(ctx, fn, P, subst, acc, atoms, oid, text):
+    """Exits of a summing function, independent of early-return vs. nested-if style: every exit returns the accumulator (or the literal 0 for a
+    coinbase); an exit taken for a non-coinbase lies behind every addition (behind the complete loop for additions made in a loop)."""
+    ex = exits(fn, P, subst)
+    adds = sites(fn, lambda e: e[0] == "b" and e[1] == "+=" and match(["local", acc], e[2]), P)
+    okall = bool(ex)
+    detail = []
+    for e in ex:
+        v = e.value
+        isacc = is_expr(v) and match(["local", acc], v)
+        iszero = is_expr(v) and match(["int", 0], v)
+        f_, m_, un = bound(drop_done(e.formula), atoms)
+        if iszero:
+            ok = F.implies(f_, F.parse("COINBASE"))
+        elif isacc:
+            ok = True
+            for a in adds:
+                concl = [F.parse("COINBASE")]
+                if a.loops:
+                    concl.append(F.atom("done(loop@%s)" % a.loops[0].get("l")))
+                    g_, _, _ = F.bind_atoms(e.formula, atoms)
+                    ok = ok and F.counterexample(g_, F.mk_or(concl)) is None
+                else:
+                    ok = ok and (F.implies(f_, F.parse("COINBASE")) or (e.line or 0) > (a.line or 0))
+        else:
+            ok = False
+        detail.append((e.line, show(v) if is_expr(v) else None, ok))
+        okall = okall and ok
+    ctx.ob("%s/exits" % oid, "SUM", text, okall, fn.where, {"exits": detail})
+
+
 def sigop_twins(ctx, P):
     # GetTransactionSigOpCost
     f = ctx.used(P.fn("GetTransactionSigOpCost"))
     subst = naming(f, P)
     ex = exits(f, P, subst)
     names = {show(e.value) for e in ex if is_expr(e.value) and e.value[0] == "local"}
-    if len(names) != 1 or len(ex) != 2:
-        raise AnalysisBroken("GetTransactionSigOpCost: expected two exits returning the same accumulator")
+    if len(names) != 1:
+        raise AnalysisBroken("GetTransactionSigOpCost: expected every exit to return the same accumulator")
     acc = names.pop()
-    lps = loops_in(f, "for")
-    i = for_shape(lps[0], subst)[0] if len(lps) == 1 else "?"
-    coin = r"inputs\.AccessCoin\(tx\.vin\[%s\]\.prevout\)" % i
+    wsites = sites(f, call_to("CountWitnessSigOps"), P)
+    if len(wsites) != 1 or len(wsites[0].loops) != 1:
+        raise AnalysisBroken("GetTransactionSigOpCost: expected one CountWitnessSigOps call inside one loop over the inputs")
+    info = loop_info(f, wsites[0].loops[0], subst)
+    el = elem_rx(info)
+    coin = r"inputs\.AccessCoin\(" + el + r"\.prevout\)"
     p2sh = re.compile(r"(?:flags & script_verify_flags\{script_verify_flag_name::SCRIPT_VERIFY_P2SH\}|script_verify_flags\{script_verify_flag_name::SCRIPT_VERIFY_P2SH\} & flags|flags & SCRIPT_VERIFY_P2SH|SCRIPT_VERIFY_P2SH & flags)")
-    atoms = {"COINBASE": "tx.IsCoinBase()", "P2SH": p2sh, "INRANGE": "%s < tx.vin.size()" % i, "UNSPENT": (re.compile(coin + r"\.IsSpent\(\)"), False)}
+    atoms = {"COINBASE": "tx.IsCoinBase()", "P2SH": p2sh, "UNSPENT": (re.compile(coin + r"\.IsSpent\(\)"), False)}
+    okl = info["start"] == "0" and "tx.vin" in info["ranges"] and info["complete"]
+    ctx.ob("GetTransactionSigOpCost/loop", "SUM", "the witness-sigop loop visits every input of tx", okl, "%s:%s" % (f.file, info["loop"].get("l")),
+           {"kind": info["kind"], "range": info["ranges"], "start": info["start"], "complete": info["complete"]})
     check_accumulator(ctx, f, P, acc, r"(?:4 \* GetLegacySigOpCount\(tx\)|GetLegacySigOpCount\(tx\) \* 4)", [
         (r"\(?(?:4 \* GetP2SHSigOpCount\(tx, inputs\)|GetP2SHSigOpCount\(tx, inputs\) \* 4)\)?", "!COINBASE && P2SH", atoms, None, "4 * GetP2SHSigOpCount(tx, inputs) under SCRIPT_VERIFY_P2SH"),
-        (r"CountWitnessSigOps\(tx\.vin\[%s\]\.scriptSig, %s\.out\.scriptPubKey, tx\.vin\[%s\]\.scriptWitness, flags\)" % (i, coin, i), "!COINBASE && INRANGE && UNSPENT", atoms,
-         r"for\(0; %s < tx\.vin\.size\(\)\)" % i, "CountWitnessSigOps(scriptSig, spent scriptPubKey, witness, flags) per input"),
+        (r"CountWitnessSigOps\(" + el + r"\.scriptSig, " + coin + r"\.out\.scriptPubKey, " + el + r"\.scriptWitness, flags\)", "!COINBASE && UNSPENT", atoms,
+         loop_key_rx(info), "CountWitnessSigOps(scriptSig, spent scriptPubKey, witness, flags) per input"),
     ], oid="GetTransactionSigOpCost/sum", subst=subst, init_text="4 * GetLegacySigOpCount(tx)")
-    early = [e for e in ex if not e.loops and not any(DONE.fullmatch(a) for a in F.atoms(e.formula))]
-    late = [e for e in ex if e not in early]
-    ok = len(early) == 1 and len(late) == 1
-    if ok:
-        check_equiv(ctx, early[0].formula, "COINBASE", atoms, "GetTransactionSigOpCost/coinbase-exit", "SUM", "a coinbase costs exactly its legacy sigops x4 (early return before P2SH/witness terms)",
-                    "%s:%s" % (f.file, early[0].line))
-        adds = sites(f, lambda e: e[0] == "b" and e[1] == "+=" and match(["local", acc], e[2]), P)
-        ctx.ob("GetTransactionSigOpCost/coinbase-exit-first", "ORDER", "the coinbase return precedes every addition", all(early[0].line < s.line for s in adds), "%s:%s" % (f.file, early[0].line))
-        check_equiv(ctx, late[0].formula, "!COINBASE && !INRANGE", atoms, "GetTransactionSigOpCost/final-exit", "SUM", "the total is returned after the complete input loop", "%s:%s" % (f.file, late[0].line))
-    else:
-        ctx.ob("GetTransactionSigOpCost/exits", "SUM", "GetTransactionSigOpCost has one early (coinbase) exit and one final exit", False, f.where)
+    sum_exits(ctx, f, P, subst, acc, atoms, "GetTransactionSigOpCost",
+              "a coinbase costs exactly its legacy sigops x4 (no P2SH/witness term is added for it) and for any other transaction the total is returned only behind the P2SH term and the complete input loop")
     # GetLegacySigOpCount
     g = ctx.used(P.fn("GetLegacySigOpCount"))
     gs = naming(g, P)
@@ -212,22 +268,29 @@ def sigop_twins(ctx, P):
         (r"each\(tx\.vin\)\.scriptSig\.GetSigOpCount\(false\)", "true", {}, r"each\(tx\.vin\)", "scriptSig.GetSigOpCount(false) for every input"),
         (r"each\(tx\.vout\)\.scriptPubKey\.GetSigOpCount\(false\)", "true", {}, r"each\(tx\.vout\)", "scriptPubKey.GetSigOpCount(false) for every output"),
     ], oid="GetLegacySigOpCount/sum", subst=gs)
+    ctx.ob("GetLegacySigOpCount/exit", "SUM", "GetLegacySigOpCount returns its sum after both loops",
+           all(F.implies(gx[0].formula, F.atom("done(loop@%s)" % lp.get("l"))) for lp in loops_in(g) if lp.get("k") in ("for", "foreach")) and len(loops_in(g)) >= 2, g.where)
     # GetP2SHSigOpCount
     h = ctx.used(P.fn("GetP2SHSigOpCount"))
     hs = naming(h, P)
     hx = exits(h, P, hs)
-    hl = loops_in(h, "for")
-    j = for_shape(hl[0], hs)[0] if len(hl) == 1 else "?"
-    hcoin = r"inputs\.AccessCoin\(tx\.vin\[%s\]\.prevout\)" % j
-    hat = {"COINBASE": "tx.IsCoinBase()", "INRANGE": "%s < tx.vin.size()" % j, "UNSPENT": (re.compile(hcoin + r"\.IsSpent\(\)"), False),
-           "ISP2SH": re.compile(hcoin + r"\.out\.scriptPubKey\.IsPayToScriptHash\(\)")}
     accs = {show(e.value) for e in hx if is_expr(e.value) and e.value[0] == "local"}
-    zero = [e for e in hx if is_expr(e.value) and match(["int", 0], e.value)]
-    if len(accs) != 1 or len(zero) != 1 or len(hx) != 2:
-        raise AnalysisBroken("GetP2SHSigOpCount: expected `return 0` for coinbase and one accumulator exit")
+    if len(accs) != 1:
+        raise AnalysisBroken("GetP2SHSigOpCount: expected one accumulator")
     hacc = accs.pop()
-    check_equiv(ctx, zero[0].formula, "COINBASE", hat, "GetP2SHSigOpCount/coinbase", "SUM", "GetP2SHSigOpCount is 0 exactly for a coinbase (early return)", "%s:%s" % (h.file, zero[0].line))
+    hadds = sites(h, lambda e: e[0] == "b" and e[1] in ASSIGN_OPS and match(["local", hacc], e[2]), P)
+    if len(hadds) != 1 or len(hadds[0].loops) != 1:
+        ctx.ob("GetP2SHSigOpCount/sum", "SUM", "GetP2SHSigOpCount has a single addition inside one loop over the inputs", False, h.where, {"writes": [(x.line, show(x.expr)) for x in hadds]})
+        return
+    hi = loop_info(h, hadds[0].loops[0], hs)
+    hel = elem_rx(hi)
+    hcoin = r"inputs\.AccessCoin\(" + hel + r"\.prevout\)"
+    hat = {"COINBASE": "tx.IsCoinBase()", "UNSPENT": (re.compile(hcoin + r"\.IsSpent\(\)"), False),
+           "ISP2SH": re.compile(hcoin + r"\.out\.scriptPubKey\.IsPayToScriptHash\(\)")}
+    ctx.ob("GetP2SHSigOpCount/loop", "SUM", "the P2SH-sigop loop visits every input of tx", hi["start"] == "0" and "tx.vin" in hi["ranges"] and hi["complete"],
+           "%s:%s" % (h.file, hi["loop"].get("l")), {"kind": hi["kind"], "range": hi["ranges"], "start": hi["start"], "complete": hi["complete"]})
     check_accumulator(ctx, h, P, hacc, r"0", [
-        (hcoin + r"\.out\.scriptPubKey\.GetSigOpCount\(tx\.vin\[%s\]\.scriptSig\)" % j, "!COINBASE && INRANGE && UNSPENT && ISP2SH", hat, r"for\(0; %s < tx\.vin\.size\(\)\)" % j,
+        (hcoin + r"\.out\.scriptPubKey\.GetSigOpCount\(" + hel + r"\.scriptSig\)", "!COINBASE && UNSPENT && ISP2SH", hat, loop_key_rx(hi),
          "spent scriptPubKey.GetSigOpCount(scriptSig) for every input spending a P2SH output"),
     ], oid="GetP2SHSigOpCount/sum", subst=hs)
+    sum_exits(ctx, h, P, hs, hacc, hat, "GetP2SHSigOpCount", "GetP2SHSigOpCount is 0 for a coinbase and otherwise the sum over the complete input loop")
